@@ -3,6 +3,7 @@
 //! keep-alive, change advertised protocols).
 
 use futures::future;
+use futures::AsyncWrite;
 use libp2p_core::multiaddr::Multiaddr;
 use libp2p_core::transport::PortUse;
 use libp2p_core::upgrade::{InboundUpgrade, OutboundUpgrade, UpgradeInfo};
@@ -126,6 +127,8 @@ pub enum Hold {
     Drop,
     Keep,
     KeepIgnored,
+    /// close the write half (request/response style), then keep the stream to "wait for the answer"
+    KeepHalfClosed,
 }
 
 /// Events handler -> behaviour.
@@ -229,6 +232,7 @@ impl Probe {
             protocols: c.protocols.clone(),
             out: VecDeque::new(),
             held: vec![],
+            closing: vec![],
             pending_outbound: 0,
             waker: None,
             deferred_in_poll: None,
@@ -383,6 +387,8 @@ pub struct ProbeHandler {
     pub out: VecDeque<ConnectionHandlerEvent<ProbeUpgrade, Hold, HOut>>,
     /// streams kept alive by this handler: (stream, counts for keep-alive?)
     pub held: Vec<(Stream, bool)>,
+    /// streams whose write half is being closed; they move to `held` (counting) once `poll_close` returned
+    pub closing: Vec<Stream>,
     pub pending_outbound: usize,
     pub waker: Option<Waker>,
     pub deferred_in_poll: Option<Vec<String>>,
@@ -393,7 +399,7 @@ pub struct ProbeHandler {
 
 impl ProbeHandler {
     fn busy(&self) -> bool {
-        self.pending_outbound > 0 || self.held.iter().any(|(_, counts)| *counts)
+        self.pending_outbound > 0 || !self.closing.is_empty() || self.held.iter().any(|(_, counts)| *counts)
     }
     fn detail(&self) -> bool {
         self.log.lock().unwrap().detail
@@ -430,6 +436,16 @@ impl ConnectionHandler for ProbeHandler {
             hlog(&self.log, HEv::ProtocolsApplied { tag: self.tag, id: self.id, list: p.clone() });
             self.protocols = p;
         }
+        let mut i = 0;
+        while i < self.closing.len() {
+            match std::pin::Pin::new(&mut self.closing[i]).poll_close(cx) {
+                Poll::Ready(_) => {
+                    let s = self.closing.remove(i);
+                    self.held.push((s, true));
+                }
+                Poll::Pending => i += 1,
+            }
+        }
         if let Some(e) = self.out.pop_front() {
             if let ConnectionHandlerEvent::ReportRemoteProtocols(p) = &e {
                 let (add, set) = match p {
@@ -464,6 +480,8 @@ impl ConnectionHandler for ProbeHandler {
     fn on_behaviour_event(&mut self, cmd: HCmd) {
         hlog(&self.log, HEv::Command { tag: self.tag, id: self.id, cmd: cmd.clone() });
         match cmd {
+            // an "echo" payload is also answered with a handler -> behaviour event (traffic in both directions)
+            HCmd::Payload { n, target } if target == "echo" => self.out.push_back(ConnectionHandlerEvent::NotifyBehaviour(HOut::Echo { tag: self.tag, n })),
             HCmd::Payload { .. } => {}
             HCmd::SetKeepAlive(k) => self.keep_alive = k,
             HCmd::OpenStream { proto, hold } => {
@@ -472,7 +490,10 @@ impl ConnectionHandler for ProbeHandler {
                     protocol: SubstreamProtocol::new(ProbeUpgrade { names: vec![proto] }, hold).with_timeout(Duration::from_secs(10)),
                 });
             }
-            HCmd::DropStreams => self.held.clear(),
+            HCmd::DropStreams => {
+                self.held.clear();
+                self.closing.clear();
+            }
             HCmd::SetProtocols(p) => {
                 hlog(&self.log, HEv::ProtocolsApplied { tag: self.tag, id: self.id, list: p.clone() });
                 self.protocols = p
@@ -509,6 +530,7 @@ impl ConnectionHandler for ProbeHandler {
                 match f.info {
                     Hold::Drop => drop(stream),
                     Hold::Keep => self.held.push((stream, true)),
+                    Hold::KeepHalfClosed => self.closing.push(stream),
                     Hold::KeepIgnored => {
                         stream.ignore_for_keep_alive();
                         self.held.push((stream, false));
